@@ -36,7 +36,7 @@ CHECKS = {
    technique=TECH+"seeded tape images and request histories on the real machine against a reference loader model and a no-tape twin machine",
    ref="5 (C10)"),
  "C11": dict(
-   text="Component level: the real Tap state machine is stepped through whole tapes with time partitioned into seeded 1..16 T bus-wait steps (also constant and zero-length steps, chunked asset reads); every pulse must lie in [nominal, nominal+32), pilots/syncs/bit pairs/pauses and the decoded bytes must equal RefTape. System level: twin machines on the same tape - fast load vs the real 48K ROM loader running in real time on the played waveform, each request issued in the pause before its block - must agree on memory, IX, DE and carry and with RefLdBytes. Sampling, not proof.",
+   text="Component level: the real Tap state machine is stepped through whole tapes with time partitioned into seeded 1..16 T bus-wait steps (also constant and zero-length steps, chunked asset reads); every pulse must lie in [nominal, nominal+32), pilots/syncs/bit pairs/pauses and the decoded bytes must equal RefTape. System level: twin machines on the same tape - fast load vs the real 48K ROM loader running in real time on the played waveform, each request issued in the pause before its block - must agree on memory, IX, DE and carry and with RefLdBytes; and the pilot tone observed through the ULA port while the CPU executes code full of contended internal cycles must keep its average pulse length within [2168, 2200]. Sampling, not proof.",
    note="'About one second' = 3.15M..3.85M T; system runs use blocks up to 300 bytes; system variables touched by the ROM's frame interrupt are masked.",
    technique=TECH+"seeded time partitions on the real tape state machine against a reference waveform; twin-machine differential (fast load vs real-time ROM loader)",
    ref="5 (C11)"),
@@ -56,7 +56,7 @@ CHECKS = {
    technique=TECH+"seeded port-write times on the simulated frame clock, border frame buffer checked against a reference beam time line",
    ref="5 (C09)"),
  "C07": dict(
-   text="Seeded device configurations (machine, Kempston joystick, mouse, I/O extender with a seeded claimed set, held keys, AY contents), then stratified port accesses (IN and OUT executed by the emulated CPU) at seeded beam positions; a strict partial-decode model says which single device is selected, its effect/value is asserted and every other device's canary (border, paging latch + bank marker, AY read-back, extender log) must be unchanged; unclaimed reads must return the floating bus (0xFF away from the fetch window, else a byte of the line being fetched). Sampling, not proof; the decode clause is static, only the floating-bus clause depends on simulated time.",
+   text="Seeded device configurations (machine, Kempston joystick, mouse, I/O extender with a seeded claimed set, held keys, AY contents), then stratified port accesses (IN and OUT executed by the emulated CPU) at seeded beam positions; a strict partial-decode model says which single device is selected, its effect/value is asserted and every other device's canary (border, paging latch + bank marker, AY read-back, extender log) must be unchanged; unclaimed reads must return the floating bus - exact ULA fetch schedule (display byte, attribute, +1, +1, four idle T-states per 8-T group) when nothing delays the port cycle, a position-specific tolerant set otherwise; with a pilot tone playing bit 6 of ULA reads must follow the tape. Sampling, not proof; the decode clause is static, only the floating-bus clause depends on simulated time.",
    note="Multi-device addresses and addresses the strict reading leaves open are don't-care (counted); floating-bus values inside the window are checked against a position-specific set (+-4 columns), so a wrong byte passes with ~13% probability per sample; EAR asserted low with no tape.",
    technique=TECH+"seeded configuration / port / beam-position sampling on the real machine against a strict decode model with canaries on all non-selected devices",
    ref="5 (C07)"),
@@ -71,7 +71,7 @@ CHECKS = {
    technique=TECH+"seeded input-event histories on the real machine, read back through the emulated CPU, against a reference set model",
    ref="5 (C17)"),
  "C05": dict(
-   text="Whole-machine simulation: constant-time programs run for K frames under a seeded host driving schedule (FrameCount(n), Max mode stopped by scripted stopwatch readings, breakpoint stops) with an exact T-state conservation equation and interrupt counter, plus INT-window and frame-end single-step probes on both machines. Sampling, not proof.",
+   text="Whole-machine simulation: constant-time programs (DI busy loop, EI busy loop with a 39-T IM-2 handler, EI;HALT idle loop, DI;HALT entered at a T-state that is not a multiple of 4) run for K frames under a seeded host driving schedule (FrameCount(n), Max mode stopped by scripted stopwatch readings, breakpoint stops) with an exact T-state conservation equation and interrupt counter, plus INT-window and frame-end single-step probes on both machines. Sampling, not proof.",
    note="Programs run in uncontended RAM so instruction times are the documented ones (C03); arbitrary instruction mixes across frame boundaries are covered by C04's instruction-level runs; uses hooks verif_frame_clocks/verif_set_frame_clocks.",
    technique=TECH+"seeded host-call schedules and scripted stopwatch on the real emulator, exact T-state accounting",
    ref="5 (C05)"),
@@ -101,7 +101,7 @@ CHECKS = {
    technique=TECH+"recorded bus-cycle histories of the real CPU checked against reference cycle scripts",
    ref="5 (C03)"),
  "C12": dict(
-   text="Seeded search over deck-command histories on the real Tap state machine: commands (play/stop/rewind) are injected at arbitrary waveform phases while simulated time advances in 1..16 T bus-wait steps; the recorded EAR edge history is decoded by an independent ROM-like decoder and compared with the tape's block list. Sampling, not proof.",
+   text="Seeded search over deck-command histories on the real Tap state machine: commands (play/stop/rewind) are injected at arbitrary waveform phases while simulated time advances in 1..16 T bus-wait steps; the recorded EAR edge history is decoded by an independent ROM-like decoder and compared with the tape's block list. One run in ten drives the same histories through Emulator::play_tape/stop_tape/rewind_tape and observes EAR through the ULA port. Sampling, not proof.",
    note="Trusts the RefTape decoder (zxref::tape) and can_fast_load() as the 'deck stopped' indicator; tapes are well-formed with blocks of 2..302 bytes; component level (Tap driven directly), system-level ROM loads are covered by C11.",
    technique=TECH+"seeded command/time schedules on the real tape state machine, history checked against a reference waveform decoder",
    ref="5 (C12)"),
